@@ -24,6 +24,7 @@ EXPLANATION = (
     ' Round-4 triage: (14) scroll / IL / DL pop before they insert and IL / DL return outside the scrolling region; (15) erase calls pass inclusive cursor coordinates; (16) the canvas cursor is built from constrained coordinates; (17) counting loops driven by an escape-sequence parameter are clamped with min() first; (18) SGR state: csi_set_attr() undoes exactly the colour adjustment sgi_to_attrspec() applies (bold->bright, foreground only) and no SGR parameter is interpreted by fixed position; (19) lines leaving the scrollback are cut / padded to the current width and shortening the scrollback re-clamps scrolling_up. Round 5: (18) the undo also repeats the colour-depth test of the mapping; (20) no slice bound of TermCanvas is an unclamped difference of runtime quantities. Round-5 triage: (13, sharpened) the region scrolls under equality with the margin, in push_cursor as in linefeed; (21) SHADOW - no loop target clobbers a live local; (22) the fixed-length palette sequence is complete with the 7th buffered character; (23) ED corners ignore the scrolling margins.'
     ' Round 6: (24) BOUND: every look-ahead read L[i + k] in vterm.py is covered by a length test i + m < len(L) with m >= k (earlier operand of the same `and`, or a dominating test): SGR 38;5 / 38;2 with the parameters cut short must not raise IndexError.'
     ' (25) ALIAS: the classes TermCanvas freezes with copy.copy() (save_cursor: AttrSpec, TermCharset) never edit one of their container attributes in place (fix 43a10ab: DECSC / DECRC restores the G0 / G1 designations).'
+    ' Round 8: (26) ALIAS: saved and live cursor attributes never share an object (both directions copy); (27) SIB: each arm of scroll() pops at one margin of the region and inserts at the other.'
 )
 NOT_DECIDED = (
     "Index-bounds safety of every self.term[y][x] access (IndexError is outside the exception model; only the clamp discipline is decided), width normalisation of rows returned "
